@@ -130,6 +130,12 @@ func (br *botRunner) UpdateTableState(table *pokertable.Table) error {
 		return nil
 	}
 
+	// "playing" has been announced but the hand's first state has not arrived yet
+	// (an update published by a re-buy / add-on / departure at that moment)
+	if gs == nil {
+		return nil
+	}
+
 	// Getting player index in game
 	gamePlayerIdx := table.GamePlayerIndex(br.playerID)
 
